@@ -17,7 +17,7 @@ _mon = None
 
 
 def cases(tier):
-    return 1600 if tier == "quick" else 60000
+    return 12000 if tier == "quick" else 250000
 
 
 def floors(tier):
